@@ -89,6 +89,7 @@ func (src *Rollout) ConvertTo(dst conversion.Hub) error {
 		if src.Annotations[TrafficRoutingAnnotation] != "" {
 			obj.Spec.Strategy.Canary.TrafficRoutingRef = src.Annotations[TrafficRoutingAnnotation]
 		}
+		obj.Spec.Strategy.Canary.DisableGenerateCanaryService = srcSpec.Strategy.Canary.DisableGenerateCanaryService
 
 		// status
 		obj.Status = v1beta1.RolloutStatus{
@@ -239,6 +240,7 @@ func (dst *Rollout) ConvertFrom(src conversion.Hub) error {
 		if srcV1beta1.Spec.Strategy.Canary.TrafficRoutingRef != "" {
 			dst.Annotations[TrafficRoutingAnnotation] = srcV1beta1.Spec.Strategy.Canary.TrafficRoutingRef
 		}
+		dst.Spec.Strategy.Canary.DisableGenerateCanaryService = srcV1beta1.Spec.Strategy.Canary.DisableGenerateCanaryService
 
 		// status
 		dst.Status = RolloutStatus{
